@@ -360,3 +360,97 @@ def finish(res, level="proof", checker_cmd="lake build && lake env lean Audit_<i
           "known_findings_reobserved": sorted(known.keys())}
     json.dump(ev, open(os.path.join(VERIF, "evidence", f"{prop}.json"), "w"), indent=1, default=str)
     return exit_code
+
+
+# ----------------------------------------------------------------------------- controlled-schedule runs (trace acceptance + monitors)
+
+
+def conc_shard(binp, mode, acceptor, seed, first, runs, extra, tmpdir, idx):
+    monp = os.path.join(tmpdir, f"mon_{mode}_{idx}_{first}.txt")
+    cmd = [binp, mode, "-seed", str(seed), "-first", str(first), "-runs", str(runs), "-mon", monp, *extra]
+    h = subprocess.Popen(cmd, stdout=subprocess.PIPE, stderr=subprocess.PIPE)
+    if acceptor:
+        m = subprocess.Popen([MODEL_BIN, acceptor], stdin=h.stdout, stdout=subprocess.PIPE, stderr=subprocess.PIPE, text=True)
+        h.stdout.close()
+        mout, merr = m.communicate()
+    else:
+        mout, merr = "", ""
+        h.stdout.read()
+    herr = h.stderr.read().decode(errors="replace")
+    hrc = h.wait()
+    o = {"accepted": 0, "rejected": [], "steps": 0, "cov": {}, "mon_ok": 0, "monfail": [], "crash": None, "progs": {}, "first_accept": None, "cmd": " ".join(cmd)}
+    if hrc != 0:
+        o["crash"] = f"harness exit {hrc}: {herr[-1200:]}"
+    for line in mout.split("\n"):
+        if line.startswith("ACCEPT "):
+            o["accepted"] += 1
+            if o["first_accept"] is None:
+                o["first_accept"] = line[:600]
+        elif line.startswith("REJECT "):
+            o["rejected"].append(line[:900])
+        elif line.startswith("COV "):
+            _, k, v = line.split(" ")
+            o["cov"][k] = o["cov"].get(k, 0) + int(v)
+        elif line.startswith("TOTAL "):
+            mm = re.search(r"steps=(\d+)", line)
+            o["steps"] += int(mm.group(1)) if mm else 0
+    if acceptor and "TOTAL" not in mout and not o["crash"]:
+        o["crash"] = f"model driver produced no TOTAL line: {merr[-500:]}"
+    try:
+        for line in open(monp):
+            line = line.rstrip("\n")
+            if line.startswith("RUN "):
+                _, k, d = line.split(" ", 2)
+                o["progs"][int(k)] = d
+            elif line.startswith("MON "):
+                _, k, rest = line.split(" ", 2)
+                if rest.startswith("ok"):
+                    o["mon_ok"] += 1
+                else:
+                    o["monfail"].append((int(k), rest))
+        os.unlink(monp)
+    except FileNotFoundError:
+        pass
+    return o
+
+
+def run_conc(res, binp, mode, acceptor, seed, total, extra=(), tag=None, label=None, shards=None):
+    """sharded controlled-schedule runs; trace acceptance by the Lean model + Go monitors"""
+    label = label or f"{mode} {' '.join(extra)}"
+    shards = shards or min(NCPU, max(1, total // 500))
+    per = (total + shards - 1) // shards
+    tmpdir = scratch_dir()
+    with ThreadPoolExecutor(max_workers=shards) as ex:
+        outs = list(ex.map(lambda k: conc_shard(binp, mode, acceptor, seed, k * per, per, list(extra), tmpdir, k), range(shards)))
+    agg = {"runs": 0, "accepted": 0, "rejected": 0, "steps": 0, "monitor_ok": 0, "monitor_failures": 0, "cov": {}, "distinct_programs": 0}
+    progs = set()
+    for o in outs:
+        agg["accepted"] += o["accepted"]
+        agg["steps"] += o["steps"]
+        agg["monitor_ok"] += o["mon_ok"]
+        agg["runs"] += len(o["progs"])
+        progs.update(o["progs"].values())
+        for k, v in o["cov"].items():
+            agg["cov"][k] = agg["cov"].get(k, 0) + v
+        if o["crash"]:
+            res.add(Problem("correspondence", f"{label}: {o['crash']}", {"cmd": o["cmd"]}))
+        for line in o["rejected"]:
+            agg["rejected"] += 1
+            if agg["rejected"] <= 5:
+                mm = re.match(r"REJECT (\d+) ", line)
+                res.add(Problem("correspondence", f"{label}: implementation trace rejected by the Lean model",
+                                {"reject": line, "replay_cmd": o["cmd"], "note": "run index within the shard = REJECT number - 1 + first"}, key=line[:200]))
+        for k, rest in o["monfail"]:
+            mm = re.match(r"FAIL (C\d+) (.*)", rest)
+            if mm and tag and mm.group(1) != tag:
+                continue
+            agg["monitor_failures"] += 1
+            if agg["monitor_failures"] <= 30:
+                res.add(Problem("monitor", f"{label}: {(mm.group(2) if mm else rest)[:700]}",
+                                {"program": o["progs"].get(k), "replay_cmd": re.sub(r"-first \d+ -runs \d+", f"-only {k}", o["cmd"])},
+                                key=(o["progs"].get(k) or "") + " " + rest[:200]))
+    agg["distinct_programs"] = len(progs)
+    if outs and outs[0]["progs"]:
+        k0 = sorted(outs[0]["progs"])[0]
+        res.samples.append({"mode": label, "program": outs[0]["progs"][k0], "model_verdict": outs[0]["first_accept"]})
+    return agg
